@@ -104,7 +104,7 @@ def gen_cases(rng, tier):
         cases.append({"kind": "life", "adapter": "sqlite", "hist": h, "tname": 3})
     # histories with a REFUSED write ('e': a record the adapter cannot store - an integer beyond 64 bits for SQLite, text
     # with a lone surrogate for the binary stream) after which the caller carries on: nothing else may be lost
-    for adapter in ("sqlite", "stream"):
+    for adapter in ("sqlite", "stream", "jsonfile"):
         if adapter not in ADAPTERS:
             continue
         for n in range(2, maxlen + 1):
@@ -314,6 +314,8 @@ def _apply_ops(w, hist, mk):
                 # a value this adapter refuses: beyond SQLite's 64-bit integers / not encodable as UTF-8
                 if hasattr(w, "con"):
                     rec.n = 2 ** 70
+                elif type(w).__name__ == "JsonfileWriter":
+                    rec.n = 10 ** 5000          # beyond CPython's int-to-text limit: json.dumps raises ValueError
                 else:
                     rec.s = "\ud800"
                 w.write(rec)
